@@ -25,6 +25,7 @@ type HarnessSpec struct {
 	MustReach []string      `json:"must_reach"`
 	Note     string         `json:"note"`
 	Race     bool           `json:"race"` // replay counterexamples under the race detector
+	Tiers    []string       `json:"tiers"` // if set: run this entry only in these tiers
 }
 
 type CheckSpec struct {
@@ -60,7 +61,17 @@ type nativeResult struct {
 	Reached  map[string]int
 }
 
-const verifDir = "/verif"
+// verifDir is /verif; VERIF_DIR / VERIF_REPO redirect a scratch clone (tools/clone.sh) for
+// exploratory runs that must not touch /repo. Registered checks always run with the defaults.
+var verifDir = envOr("VERIF_DIR", "/verif")
+var repoDir = envOr("VERIF_REPO", "/repo")
+
+func envOr(k, d string) string {
+	if v := os.Getenv(k); v != "" {
+		return v
+	}
+	return d
+}
 
 func goEnv() []string {
 	return append(os.Environ(), "GOFLAGS=-mod=mod", "GOPROXY=off", "GOSUMDB=off", "GOTOOLCHAIN=local", "CGO_ENABLED=0")
@@ -68,7 +79,7 @@ func goEnv() []string {
 
 func buildNative(race bool) (string, error) {
 	// keep go.sum in sync with /repo
-	if b, err := os.ReadFile("/repo/go.sum"); err == nil {
+	if b, err := os.ReadFile(filepath.Join(repoDir, "go.sum")); err == nil {
 		os.WriteFile(filepath.Join(verifDir, "harness", "go.sum"), b, 0o644)
 	}
 	out := filepath.Join(verifDir, "bin", "native")
@@ -246,6 +257,15 @@ func cmdCheck(args []string) {
 	for _, hs := range spec.Harnesses {
 		if *only != "" && hs.Name != *only {
 			continue
+		}
+		if len(hs.Tiers) > 0 {
+			in := false
+			for _, t := range hs.Tiers {
+				in = in || t == *tier
+			}
+			if !in {
+				continue
+			}
 		}
 		params := hs.Quick
 		if *tier == "thorough" && hs.Thorough != nil {
